@@ -4,9 +4,9 @@ CFG = {'level': 'exploration',
  'design_ref': '5.9 C09',
  'technique': 'runtime monitoring: invariant monitor on the appended store (each stored hash vs. independent recursive RFC 6962 MTH, index '
               'bijection, completion-order formula), codec round-trip monitors',
- 'level_text': 'Logs of 257 and 700 (quick) / 4097 and 6000 (thorough) PRNG records per batch are appended one record at a time; every stored hash, '
-               'every index<->coordinate mapping, every StoredHashCount and every TreeHash(m) is compared with an independent model; 2e5/1e7 sparse '
-               'coordinates up to 2^61 and 1e5/6e6 tree/record/hash codec round trips.',
+ 'level_text': 'Logs of 257 and 700 (quick) / 16385 and 30000 (thorough) PRNG records per batch are appended one record at a time; every stored hash, '
+               'every index<->coordinate mapping, every StoredHashCount and every TreeHash(m) is compared with an independent model; 2e5/6e7 sparse '
+               'coordinates up to 2^61 and 1e5/3e7 tree/record/hash codec round trips.',
  'level_note': 'Trusts crypto/sha256 and ref/refmerkle (recursive MTH; completion-order index formula StoredCount(rec)+level derived from the '
                'documented append protocol).',
  'nbatch': {'quick': 16, 'thorough': 64},
